@@ -205,6 +205,9 @@ HELPER_PARAMS = {
 
 # un-annotated receivers in client modules: these parameter names denote a plain Hypergraph unless the
 # function is listed in POLYMORPHIC (the functions the properties declare to work on every container)
+# private container methods of the pinned tree whose parameter names do follow the public naming (kept declared)
+PRIVATE_DECLARED = {"_restructure_query_edge", "_canon_edge", "_normalize_edge"}
+
 DUCK_NAMES = {"hypergraph", "hg", "h", "H", "HG"}
 ALL_CONTAINERS = union(*[Obj(c) for c in CONTAINERS])
 POLYMORPHIC = {
@@ -234,3 +237,50 @@ CLIENT_NAME_EXCLUDED_PREFIXES = (
     "hypergraphx.viz",
     "hypergraphx.dynamics.synch",
 )
+
+
+# ---- documented result kinds of the queries (K-RET) -------------------------------------------------------
+def query_results(cls: str) -> dict:
+    """method name -> tuple of admissible result kinds (one of them per return path), read off the docstrings of the
+    container classes: what a caller is promised to get back.  Only kinds, never values."""
+    key = KEY_C[cls]
+    node = NODE
+    r = {
+        "check_node": (BOOL,),
+        "check_edge": (BOOL,),
+        "is_weighted": (BOOL,),
+        "is_uniform": (BOOL,),
+        "is_isolated": (BOOL,),
+        "get_weight": (WEIGHT,),
+        "get_weights": (Lst(WEIGHT), Dct(key, WEIGHT)),
+        "max_order": (ORDER,),
+        "max_size": (SIZE,),
+        "get_sizes": (Lst(SIZE),),
+        "get_orders": (Lst(ORDER),),
+        "distribution_sizes": (Dct(SIZE, NUM),),
+        "num_nodes": (NUM,),
+        "num_edges": (NUM,),
+        "get_nodes": (Lst(node), Dct(node, META)),
+        "get_edges": (Lst(key), Dct(key, META), Obj(cls)),
+        "get_incident_edges": (Lst(key),),
+        "get_neighbors": (St(node), Lst(node)),
+        "isolated_nodes": (Lst(node),),
+        "get_node_metadata": (META,),
+        "get_edge_metadata": (META,),
+        "get_hypergraph_metadata": (META,),
+        "get_incidence_metadata": (META,),
+    }
+    if cls == "DirectedHypergraph":
+        r["get_sources"] = (Lst(Seq(NODE_S, True)),)
+        r["get_targets"] = (Lst(Seq(NODE_T, True)),)
+        r["get_source_edges"] = (Lst(key),)
+        r["get_target_edges"] = (Lst(key),)
+    if cls == "TemporalHypergraph":
+        r["get_times_for_edge"] = (Lst(TIME),)
+        r["min_time"] = (TIME,)
+        r["max_time"] = (TIME,)
+        r["subhypergraph"] = (Dct(TIME, Obj("Hypergraph")),)
+    if cls == "MultiplexHypergraph":
+        r["get_existing_layers"] = (St(LAYER), Lst(LAYER))
+        r["aggregated_hypergraph"] = (Obj("Hypergraph"),)
+    return r
